@@ -113,7 +113,8 @@ func configs(tier string) []config {
 
 func counterModel(cfg config, depth int, rep *lib.Report) *lib.Model[*sys] {
 	adv := advances(cfg.n, cfg.res)
-	ops := []string{"Inc(1)", "Count", "Inc(3)"}
+	ops := []string{"Inc(1)", "Count", "Append(other=2)", "Clone", "Reset"}
+	nOps := len(ops)
 	for _, d := range adv {
 		ops = append(ops, fmt.Sprintf("Advance(%v)", d))
 	}
@@ -136,11 +137,24 @@ func counterModel(cfg config, depth int, rep *lib.Report) *lib.Model[*sys] {
 		case 1:
 			return fmt.Sprint(s.c.Count())
 		case 2:
-			s.c.Inc(3)
-			s.ref.add(now, 3)
+			// another counter of the same shape that has just counted 2 is appended: 2 more events at this instant
+			o, _ := memmetrics.NewCounter(cfg.n, cfg.res)
+			o.Inc(2)
+			if err := s.c.Append(o); err != nil {
+				return "append error: " + err.Error()
+			}
+			s.ref.add(now, 2)
+			return ""
+		case 3:
+			// the copy must count exactly like the original from here on
+			s.c = s.c.Clone()
+			return ""
+		case 4:
+			s.c.Reset()
+			s.ref.incs = nil
 			return ""
 		default:
-			clock.Advance(adv[op-3])
+			clock.Advance(adv[op-nOps])
 			s.ref.prune(clock.Now().UTC(), cfg.n, cfg.res)
 			return ""
 		}
@@ -181,7 +195,7 @@ func counterModel(cfg config, depth int, rep *lib.Report) *lib.Model[*sys] {
 func ratioModel(cfg config, depth int, rep *lib.Report) *lib.Model[*sys] {
 	adv := advances(cfg.n, cfg.res)
 	adv = []time.Duration{adv[0], adv[1], adv[2], adv[4], adv[5], adv[7]}
-	ops := []string{"IncA(1)", "IncB(1)", "Ratio", "IncA(3)"}
+	ops := []string{"IncA(1)", "IncB(1)", "Ratio", "Reset"}
 	for _, d := range adv {
 		ops = append(ops, fmt.Sprintf("Advance(%v)", d))
 	}
@@ -206,8 +220,8 @@ func ratioModel(cfg config, depth int, rep *lib.Report) *lib.Model[*sys] {
 		case 2:
 			return fmt.Sprint(s.rc.Ratio())
 		case 3:
-			s.rc.IncA(3)
-			s.a.add(now, 3)
+			s.rc.Reset()
+			s.a.incs, s.b.incs = nil, nil
 		default:
 			clock.Advance(adv[op-4])
 			n2 := clock.Now().UTC()
@@ -259,7 +273,7 @@ func Run(tier string, sh lib.Shard, rep *lib.Report) {
 	rep.Bounds["depth_beyond_prepared_state(window filled once)"] = pdepth
 	rep.Bounds["counter_history_depth"] = depth
 	rep.Bounds["ratio_history_depth"] = rdepth
-	rep.Bounds["alphabet_counter"] = "Inc(1) Count Inc(3) Advance{r/3,r/2,r,3r/2,(N-1)r,Nr,(N+1)r,2Nr+r/2}"
+	rep.Bounds["alphabet_counter"] = "Inc(1) Count Append(other counter holding 2) Clone Reset Advance{r/3,r/2,r,3r/2,(N-1)r,Nr,(N+1)r,2Nr+r/2}; ratio: IncA IncB Ratio Reset Advance{...}"
 	rep.Bounds["configurations"] = "N in {1,2,3,5,10} x r in {1s,1.5s,2s,2.5s,3s,7s,10s,60s} x 4 clock phases"
 	rep.Rule = "breadth-first search over all operation histories up to the depth bound on the real counter; state key = reflective dump of the counter + absolute instant + reference increments still inside N*r (exact key: merges only identical futures); a state is non-trivial when the reference window holds at least one increment"
 	rep.Assume("A2: one API call observes one instant of the frozen clock")
